@@ -108,8 +108,10 @@ def run(pid, tier, seed):
         if kind == "sut-panic":
             rep.violation({"go_test_output": out[-4000:]}, "code under test panicked:\n" + out[-1500:])
             return rep.finish()
-        raise vlib.Inconclusive("harness failed:\n" + out[-3000:])
-    st = json.load(open(stats))
+        if kind != "stopped":
+            raise vlib.Inconclusive("harness failed:\n" + out[-3000:])
+        rep.stopped = "watchdog: the run did not come to rest"
+    st = json.load(open(stats)) if os.path.exists(stats) else {}
     rep.extra["schedules"] = {k: {"dfs": v[0], "random": v[1], "exhaustive": bool(v[2])} for k, v in st.items()}
     rep.extra["schedules_total"] = sum(v[0] + v[1] for v in st.values())
     lines = vlib.read_ndjson(tp)
